@@ -86,6 +86,14 @@ type env struct {
 	anyRemoved      bool
 	nontrivial      bool
 	cls             map[string]int64
+
+	// class B: the small unrelated tree the re-entrant filters query, and the
+	// first disagreement they saw
+	inner      *quadtree.Quadtree
+	innerItems []*item
+	reErr      error
+	// class D: a sibling tree with another bound that the noise calls build and query
+	other *quadtree.Quadtree
 }
 
 func (e *env) bump(name string) { e.cls[name]++ }
@@ -147,7 +155,13 @@ func (e *env) same(a, b float64) bool {
 
 // ---------------------------------------------------------------- filters
 
-func filt(name string) quadtree.FilterFunc {
+// filt builds the filter for a name. "reeven"/"reodd" are the re-entrant
+// variants (class B): before answering by id parity the callback itself queries
+// an unrelated small quadtree (Find, KNearest, InBound with known answers) and,
+// for queries, the very tree being searched (read-only: Find at the candidate's
+// own point must return a pointer at that point). What the callback saw wrong is
+// kept in e.reErr and reported by the check that issued the query.
+func (e *env) filt(name string) quadtree.FilterFunc {
 	switch name {
 	case "even":
 		return func(p orb.Pointer) bool { return p.(*item).id%2 == 0 }
@@ -157,20 +171,78 @@ func filt(name string) quadtree.FilterFunc {
 		return func(p orb.Pointer) bool { _ = p.(*item); return false }
 	case "all":
 		return func(p orb.Pointer) bool { _ = p.(*item); return true }
+	case "reeven":
+		return func(p orb.Pointer) bool { e.reenter(p.(*item), true); return p.(*item).id%2 == 0 }
+	case "reodd":
+		return func(p orb.Pointer) bool { e.reenter(p.(*item), true); return p.(*item).id%2 != 0 }
+	case "rmreeven": // used by Remove: only the unrelated tree is queried while a removal is searching
+		return func(p orb.Pointer) bool { e.reenter(p.(*item), false); return p.(*item).id%2 == 0 }
 	}
 	return nil // "", "nil"
 }
 
 func accepts(name string, it *item) bool {
 	switch name {
-	case "even":
+	case "even", "reeven", "rmreeven":
 		return it.id%2 == 0
-	case "odd":
+	case "odd", "reodd":
 		return it.id%2 != 0
 	case "none":
 		return false
 	}
 	return true
+}
+
+func (e *env) innerTree() {
+	if e.inner != nil {
+		return
+	}
+	e.inner = quadtree.New(orb.Bound{Min: orb.Point{-1, -1}, Max: orb.Point{6, 3}})
+	for i := 0; i < 5; i++ {
+		it := &item{id: 1000 + i, p: orb.Point{float64(i), 1}}
+		e.innerItems = append(e.innerItems, it)
+		_ = e.inner.Add(it)
+	}
+}
+
+// reenter is what a re-entrant filter does before answering.
+func (e *env) reenter(it *item, sameTree bool) {
+	if e.reErr != nil {
+		return
+	}
+	e.innerTree()
+	i := it.id % 5
+	if i < 0 {
+		i = -i
+	}
+	want := e.innerItems[i]
+	qp := orb.Point{float64(i), 1.125}
+	if got := e.inner.Find(qp); got != orb.Pointer(want) {
+		e.reErr = fmt.Errorf("inside a filter callback: Find(%v) on an unrelated 5-point tree returned %v, want %v", qp, got, want)
+		return
+	}
+	if got := e.inner.KNearest(nil, qp, 2); len(got) != 2 || got[0] != orb.Pointer(want) {
+		e.reErr = fmt.Errorf("inside a filter callback: KNearest(%v, 2) on an unrelated 5-point tree returned %v, want %v first of 2", qp, got, want)
+		return
+	}
+	box := orb.Bound{Min: orb.Point{float64(i) - 0.25, 0.75}, Max: orb.Point{float64(i) + 0.25, 1.25}}
+	if got := e.inner.InBound(nil, box); len(got) != 1 || got[0] != orb.Pointer(want) {
+		e.reErr = fmt.Errorf("inside a filter callback: InBound(%v) on an unrelated 5-point tree returned %v, want exactly %v", box, got, want)
+		return
+	}
+	if sameTree {
+		// the candidate handed to the filter is stored, so the nearest pointer to its own point is at
+		// (computed) squared distance 0 — not necessarily at the same point: tiny offsets square to 0
+		if got := e.q.Find(it.p); got == nil || e.d2(got.Point(), it.p) != 0 {
+			e.reErr = fmt.Errorf("inside a filter callback: Find(%v) on the tree being searched returned %v, want a pointer at squared distance 0 (%v is stored)", it.p, got, it)
+		}
+	}
+}
+
+func (e *env) takeReErr() error {
+	err := e.reErr
+	e.reErr = nil
+	return err
 }
 
 // ---------------------------------------------------------------- bookkeeping
@@ -334,7 +406,10 @@ func (e *env) checkFind(qp orb.Point, f string) error {
 		got = e.q.Find(qp)
 	} else {
 		name = "Matching[" + f + "]"
-		got = e.q.Matching(qp, filt(f))
+		got = e.q.Matching(qp, e.filt(f))
+	}
+	if err := e.takeReErr(); err != nil {
+		return fmt.Errorf("%s(%v): %v", name, qp, err)
 	}
 	best, any := math.Inf(1), false
 	for _, m := range e.stored {
@@ -389,7 +464,10 @@ func (e *env) checkKNearest(qp orb.Point, k int, f string, hasMax bool, maxD flo
 	if f == "" {
 		res = e.q.KNearest(buf, qp, k, md...)
 	} else {
-		res = e.q.KNearestMatching(buf, qp, k, filt(f), md...)
+		res = e.q.KNearestMatching(buf, qp, k, e.filt(f), md...)
+	}
+	if err := e.takeReErr(); err != nil {
+		return fmt.Errorf("%s: %v", name, err)
 	}
 	lim := maxD * maxD
 	var ds []float64
@@ -482,7 +560,10 @@ func (e *env) checkInBound(box orb.Bound, f string, buf []orb.Pointer) error {
 	if f == "" {
 		res = e.q.InBound(buf, box)
 	} else {
-		res = e.q.InBoundMatching(buf, box, filt(f))
+		res = e.q.InBoundMatching(buf, box, e.filt(f))
+	}
+	if err := e.takeReErr(); err != nil {
+		return fmt.Errorf("%s: %v", name, err)
 	}
 	edge := false
 	in := func(m *item) bool {
@@ -581,7 +662,7 @@ func (e *env) remove(op Op) error {
 		desc = fmt.Sprintf("Remove(%v, identity)", it)
 	}
 	tgt := op.Tgt
-	if tgt == "filter" && filt(op.F) == nil {
+	if tgt == "filter" && e.filt(op.F) == nil {
 		tgt = "point" // a nil filter means "match by point"
 	}
 	if tgt == "stored" && len(e.stored) == 0 {
@@ -603,7 +684,7 @@ func (e *env) remove(op Op) error {
 		desc = fmt.Sprintf("Remove(new pointer at %v, nil)", pt)
 	case "filter":
 		arg = pt
-		eq = filt(op.F)
+		eq = e.filt(op.F)
 		match = func(m *item) bool { return accepts(op.F, m) }
 		desc = fmt.Sprintf("Remove(%v, filter %s)", pt, op.F)
 	default: // "point"
@@ -638,6 +719,9 @@ func (e *env) remove(op Op) error {
 		}
 	}
 	got := e.q.Remove(arg, eq)
+	if err := e.takeReErr(); err != nil {
+		return fmt.Errorf("%s: %v", desc, err)
+	}
 	if got != want {
 		return fmt.Errorf("%s returned %v, but a matching stored pointer %s (%d stored)", desc, got, map[bool]string{true: "exists", false: "does not exist"}[want], len(e.stored))
 	}
@@ -699,7 +783,7 @@ func (e *env) remove(op Op) error {
 
 func (e *env) step(i int, op Op) error {
 	if e.interiorRemoved || (!e.w.ok && e.anyRemoved) {
-		if op.K != "rm" && op.K != "addnil" {
+		if op.K != "rm" && op.K != "addnil" && op.K != "noise" {
 			e.nontrivial = true
 		}
 	}
@@ -720,6 +804,9 @@ func (e *env) step(i int, op Op) error {
 	case "rm":
 		mutating = true
 		err = e.remove(op)
+	case "noise":
+		e.noise(op.Sel)
+		e.bump("out:noise burst")
 	case "find":
 		err = e.checkFind(qp, op.F)
 	case "knn":
@@ -807,8 +894,12 @@ func (e *env) battery() error {
 		qps = append(qps, orb.Point{(pts[0][0] + pts[1][0]) / 2, (pts[0][1] + pts[1][1]) / 2})
 	}
 	n := len(e.stored)
+	e.noise(n + 7*len(e.created))
 	for qi, qp := range qps {
-		for _, f := range []string{"", "nil", "even", "odd", "none"} {
+		if err := e.checkKNearest(qp, n, "reeven", false, 0, nil); err != nil {
+			return err
+		}
+		for _, f := range []string{"", "nil", "even", "odd", "none", "reodd"} {
 			if err := e.checkFind(qp, f); err != nil {
 				return err
 			}
@@ -859,7 +950,7 @@ func (e *env) battery() error {
 		boxes = append(boxes, orb.Bound{Min: e.b.Min, Max: orb.Point{p[0] - w/2048, e.b.Max[1]}}, orb.Bound{Min: orb.Point{e.b.Min[0], p[1] + h/2048}, Max: e.b.Max})
 	}
 	for bi, box := range boxes {
-		for fi, f := range []string{"", "nil", "odd", "none"} {
+		for fi, f := range []string{"", "nil", "odd", "none", "reeven"} {
 			bufN := 0
 			if (bi+fi)%2 == 1 {
 				bufN = 1 + (bi % (n + 2))
@@ -876,8 +967,7 @@ func (e *env) battery() error {
 
 var theWalker = newWalker()
 
-// runCase replays the history on a fresh tree next to the list model.
-func runCase(c Case) (info, error) {
+func newEnv(c Case) *env {
 	e := &env{
 		b:     c.Bound.Bound(),
 		exact: exactCase(c),
@@ -889,6 +979,11 @@ func runCase(c Case) (info, error) {
 	for _, p := range c.Pre {
 		e.newItem(p.Pt())
 	}
+	return e
+}
+
+// replay runs the whole history (and the battery, if asked) on e.
+func (e *env) replay(c Case) error {
 	var err error
 	for i, op := range c.Ops {
 		if err = e.step(i, op); err != nil {
@@ -909,10 +1004,104 @@ func runCase(c Case) (info, error) {
 			err = e.checkStructure(str("the last step"))
 		}
 	}
+	return err
+}
+
+// runCase replays the history on a fresh tree next to the list model.
+func runCase(c Case) (info, error) {
+	e := newEnv(c)
+	err := e.replay(c)
 	return info{nontrivial: e.nontrivial, cls: e.cls}, err
+}
+
+// reader is a read-only view of a built environment for one goroutine: it shares
+// the tree and the model (neither is written by queries) and has its own
+// counters, callback state and buffers.
+func (e *env) reader() *env {
+	r := *e
+	r.cls = map[string]int64{}
+	r.inner, r.innerItems, r.reErr, r.other = nil, nil, nil, nil
+	return &r
+}
+
+// readOnly runs query steps only (no contents re-listing that would allocate per
+// step beyond the query itself is needed: the model is fixed).
+func (e *env) readOnly(ops []Op) error {
+	for i, op := range ops {
+		switch op.K {
+		case "find", "knn", "inb":
+			if err := e.step(i, op); err != nil {
+				return err
+			}
+		}
+	}
+	return nil
 }
 
 func checkCase(c Case) error {
 	_, err := runCase(c)
 	return err
+}
+
+// ---------------------------------------------------------------- noise (class D)
+
+// noise issues a burst of unchecked calls with legal but unusual arguments on
+// the tree under test (queries only — its contents must not change) and builds,
+// queries and prunes a sibling tree with another bound. A hidden cache keyed on
+// "the last bound / the last query / the last tree" would be poisoned by them;
+// the checked calls that follow must still agree with the model.
+func (e *env) noise(seed int) {
+	x := uint64(seed)*0x9e3779b97f4a7c15 + 0x1234567
+	next := func() uint64 {
+		x ^= x << 13
+		x ^= x >> 7
+		x ^= x << 17
+		return x
+	}
+	w, h := e.b.Max[0]-e.b.Min[0], e.b.Max[1]-e.b.Min[1]
+	frac := func() float64 { return float64(next()%2049)/1024 - 0.5 } // -0.5 .. 1.5
+	pt := func() orb.Point { return orb.Point{e.b.Min[0] + w*frac(), e.b.Min[1] + h*frac()} }
+	if e.other == nil {
+		e.other = quadtree.New(orb.Bound{Min: orb.Point{e.b.Min[0] - 3 - w, e.b.Min[1] - 7}, Max: orb.Point{e.b.Max[0] + 11, e.b.Max[1] + 2 + h/3}})
+	}
+	ob := e.other.Bound()
+	opt := func() orb.Point {
+		return orb.Point{ob.Min[0] + (ob.Max[0]-ob.Min[0])*float64(next()%1025)/1024, ob.Min[1] + (ob.Max[1]-ob.Min[1])*float64(next()%1025)/1024}
+	}
+	buf := make([]orb.Pointer, 3, 7)
+	for i := 0; i < 6; i++ {
+		switch next() % 12 {
+		case 0: // inverted box
+			a, b := pt(), pt()
+			e.q.InBound(nil, orb.Bound{Min: orb.Point{math.Max(a[0], b[0]) + 1, math.Max(a[1], b[1]) + 1}, Max: orb.Point{math.Min(a[0], b[0]), math.Min(a[1], b[1])}})
+		case 1: // huge box, rejecting filter, caller buffer with stale contents
+			e.q.InBoundMatching(buf, orb.Bound{Min: orb.Point{-1e300, -1e300}, Max: orb.Point{1e300, 1e300}}, func(orb.Pointer) bool { return false })
+		case 2:
+			e.q.KNearest(nil, pt(), 50+int(next()%50))
+		case 3:
+			e.q.KNearest(buf, pt(), 3, 0)
+			e.q.KNearest(nil, pt(), 2, -1.5)
+		case 4:
+			e.q.Matching(pt(), func(orb.Pointer) bool { return true })
+			e.q.Matching(pt(), func(orb.Pointer) bool { return false })
+		case 5:
+			_ = e.q.Bound()
+			e.q.Find(orb.Point{e.b.Min[0] - 1e6*(1+w), e.b.Max[1] + 1e9})
+		case 6, 7:
+			_ = e.other.Add(&item{id: -3, p: opt()})
+		case 8:
+			e.other.Remove(opt(), nil)
+			e.other.Remove(opt(), func(orb.Pointer) bool { return next()%2 == 0 })
+		case 9:
+			e.other.KNearest(nil, opt(), 4)
+			e.other.InBound(buf, ob)
+			e.other.Find(pt())
+		case 10:
+			_ = e.q.Add(nil)
+			quadtree.New(orb.Bound{Min: pt(), Max: pt()}).Find(pt())
+		case 11: // degenerate boxes on the tree's own edges and corners
+			e.q.InBound(nil, orb.Bound{Min: e.b.Min, Max: e.b.Min})
+			e.q.InBound(buf, orb.Bound{Min: orb.Point{e.b.Max[0], e.b.Min[1]}, Max: e.b.Max})
+		}
+	}
 }
